@@ -36,6 +36,18 @@ CLAIMED = {
                 note=NOTE_STD, technique=T_STD, ref='DESIGN.md section 4, C13'),
     'C19': dict(text='Proof: for all array extents, option-list shapes and axes the group entry points accept iff documented-valid; range checks accept exactly lo <= x <= hi (binary64); enumerated options, dimensionality guards; the pre-repair table is refuted. Correspondence: the decision function on the exhaustive grid, the public entry points on a sample (quick) or the whole grid (thorough), every scalar parameter at / inside / outside its range, every enumerated option.',
                 note=NOTE_STD, technique=T_STD, ref='DESIGN.md section 4, C19'),
+    'C14': dict(text='Proof: for a state-machine model of Bycycle objects, after ANY history of fits / edge recomputations / loads / edits the stored settings are the constructor settings with the user\'s edits applied, so a fit yields compute_features of the current settings = what a fresh object yields; recompute_edges(r) is the functional recomputation at thresholds lowered by r (min_n_cycles untouched); shorthand expansion idempotent; the pre-repair write-back is refuted by the 3-step history [fit; edit; fit]. Correspondence: random histories on real objects; stored dictionaries compared with the model, every fit with compute_features on deep copies and with a fresh object, every recompute with the functional call.',
+                note=NOTE_STD + 'Tables are symbolic terms in the model; equality of real tables is established on the explored histories.', technique=T_STD, ref='DESIGN.md section 4, C14'),
+    'C15': dict(text='Partial proof + correspondence: the theorem lifts per-call purity (result = function of argument values, environment returned unchanged) to all call sequences sharing argument objects (environment unchanged, equal calls give equal results). Whether each real function IS pure cannot be proved from a model of it; it is tested: random sequences over the listed API (20 call kinds incl. group and plot functions) sharing one set of argument objects, deep content hashes of every argument object before / after every call, equal calls compared.',
+                note=NOTE_STD + 'Partial: Python object mutation lives in the runtime; per-call frame conditions are established on the explored sequences only.', technique='Coq proof of the lifting lemma + differential / snapshot testing of the per-call frame condition', ref='DESIGN.md section 4, C15'),
+    'C16': dict(text='Proof: edges are the non-burst cycles adjacent to a burst; a cell differs from the input only if it is the amp/period consistency of an edge row; the new value is the one-sided consistency on the original table (NaN at table ends); new labels = threshold-and-run rule on the edited table; with unchanged or lowered (binary64) thresholds every bursting cycle stays bursting; pre-repair behaviour refuted. Correspondence: recompute_edges / Bycycle.recompute_edges on tables from generated signals with several reductions, all cells compared.',
+                note=NOTE_STD, technique=T_STD, ref='DESIGN.md section 4, C16'),
+    'C17': dict(text='Proof (no axioms, exact rationals in quarter turns): on well-formed cyclepoints the phase is 0 at peaks, -pi at troughs, -+pi/2 at midpoints, within [-pi, pi], strictly increasing between cyclepoints except the wrap landing on a trough, defined exactly on [first, last cyclepoint]; the pre-repair end mask is refuted by two witnesses. Correspondence: extrema_interpolated_phase on cyclepoints from generated signals and on every alternating placement on short arrays, values within 1e-6 quarter turns and NaN pattern exactly.',
+                note=NOTE_STD + 'The model computes in Q; the float interpolation of numpy is tied by tolerance only.', technique=T_STD, ref='DESIGN.md section 4, C17'),
+    'C18': dict(text='Proof: limit_df = filter (in order, payload untouched) + one uniform shift of all six sample columns; rows inside the window kept, rows outside not kept (binary64 order); limits accepted iff valid (None allowed); limit_signal = filter start <= t < stop; split/drop = partition of the columns; flatten = concatenation with per-table labels, 2-D row-major. Correspondence: all five functions on synthetic tables / grids incl. limits on cycle boundaries and empty windows.',
+                note=NOTE_STD, technique=T_STD, ref='DESIGN.md section 4, C18'),
+    'C20': dict(text='Proof for the selection / offset logic + correspondence: drawn markers are genuine cyclepoints of their series at their own sample and every cyclepoint strictly inside the view is drawn; the highlighted samples are exactly those of labelled cycles (sound) and contain every labelled cycle entirely in view (complete); panel points sit at cycle centres with the table values; the repaired offset equals the sample index on a finite grid of sampling rates (vm_compute sweep lifted), the truncating offset is refuted. Correspondence: Line2D data and masked arrays read back from the Axes (Agg) for random on-grid windows, both centrings, the four kind switches, plot_only_result / interp.',
+                note=NOTE_STD + 'Partial: matplotlib rendering is trusted; only the data handed to the artists is checked.', technique=T_STD, ref='DESIGN.md section 4, C20'),
 }
 
 PENDING = {}
